@@ -390,7 +390,7 @@ impl<'a> Sim<'a> {
         let cl_known = self.known.is_known("C07", CL_SIG).is_some();
         let ml_matters = stats.no_mainline_ancestor > 0 && stats.with_mainline_ancestor > 0;
         let cl_matters = stats.closure_differs;
-        let mut run_variant = |me: &Sim<'_>, var: rsr2::Variant| -> (Resolved, Vec<(String, BTreeMap<Key, String>, Verdict)>) {
+        let run_variant = |me: &Sim<'_>, var: rsr2::Variant| -> (Resolved, Vec<(String, BTreeMap<Key, String>, Verdict)>) {
             let mut st2 = rsr2::Stats::default();
             let mut steps2: Vec<(String, BTreeMap<Key, String>, Verdict)> = Vec::new();
             let d = rsr2::resolve_with(&me.servers[n].dag, &plain, v, var, &mut st2, &mut |e, st, verdict| {
